@@ -4,6 +4,7 @@
 #include <xenium/vyukov_hash_map.hpp>
 #include <xenium/reclamation/generic_epoch_based.hpp>
 #include <cstdio>
+#include <unistd.h>
 struct idhash { std::size_t operator()(std::uint64_t k) const { return k; } };
 using M = xenium::vyukov_hash_map<std::uint64_t, std::uint64_t, xenium::policy::reclaimer<xenium::reclamation::epoch_based<>>,
                                   xenium::policy::hash<idhash>>;
@@ -20,5 +21,6 @@ int main() {
   }
   printf("after reset/destruction of every iterator: bucket0 locked=%d bucket1 locked=%d\n", (int)locked(m, 0), (int)locked(m, 1));
   if (locked(m, 0) || locked(m, 1)) { printf("a bucket lock was leaked: emplace/erase/find on that bucket would now spin for ever\n"); bad = 1; }
-  return bad;
+  fflush(stdout);
+  _exit(bad);   // not `return`: ~vyukov_hash_map() calls begin(), which would spin on the leaked lock of bucket 0
 }
